@@ -1039,15 +1039,15 @@ func c12(c *Ctx) {
 		return
 	}
 	c.Rule = "token lists over {W Q A > if then elif else fi while until do done for in case esac { } ! ( ) ; & && || | ;; NL}: " +
-		"corpus; all lists up to length 3 (quick) / 5 (thorough, sharded); programs derived from the core grammar (depth<=3) and 1-2 token " +
+		"corpus; all lists up to length 3 (quick) / 4, and all lists of length 5-6 over {W > if then else fi { } ( ) ; |} (thorough, sharded); programs derived from the core grammar (depth<=3) and 1-2 token " +
 		"insertions/deletions/replacements/swaps of them; each rendered with random spellings per class; both LangBash and LangPOSIX; " +
 		"non-trivial = accepted by the Go parser, or a mutant of a derived program (the exhaustive short lists are counted as trivial)"
 	g := c12Gen{c.R}
 	var cases []c12Case
 	seen := map[string]bool{}
-	shellBudget := 160
+	shellBudget := 100
 	if c.Thorough() {
-		shellBudget = 900
+		shellBudget = 300 // per shard
 	}
 	add := func(kind string, posix bool, ts []string, known, wantShell bool) {
 		if len(ts) == 0 || len(ts) > 60 {
@@ -1087,16 +1087,13 @@ func c12(c *Ctx) {
 			add("corpus", f[0] == "p", f[1:], knownSet[l], true)
 		}
 	}
-	// 2. exhaustive short lists (tie only; shells on a sample).
-	maxLen := 3
-	if c.Thorough() {
-		maxLen = 5
-	}
+	// 2. exhaustive short lists (tie only): every list over the full alphabet up to length 3
+	// (thorough: 4), and in the thorough tier every list up to length 6 over a reduced alphabet.
 	idx := 0
-	cur := make([]string, 0, maxLen)
-	var exh func()
-	exh = func() {
-		if len(cur) > 0 {
+	var cur []string
+	var exh func(alpha []string, minLen, maxLen int)
+	exh = func(alpha []string, minLen, maxLen int) {
+		if len(cur) >= minLen && len(cur) > 0 {
 			idx++
 			if idx%c.Shards == c.Shard {
 				ts := append([]string(nil), cur...)
@@ -1118,13 +1115,18 @@ func c12(c *Ctx) {
 		if len(cur) == maxLen {
 			return
 		}
-		for _, t := range c12Full {
+		for _, t := range alpha {
 			cur = append(cur, t)
-			exh()
+			exh(alpha, minLen, maxLen)
 			cur = cur[:len(cur)-1]
 		}
 	}
-	exh()
+	if c.Thorough() {
+		exh(c12Full, 1, 4)
+		exh([]string{"W", ">", "if", "then", "else", "fi", "{", "}", "(", ")", ";", "|"}, 5, 6)
+	} else {
+		exh(c12Full, 1, 3)
+	}
 	// 3. grammar-derived programs and their mutations.
 	for i := 0; i < c.N; i++ {
 		ts := g.program(c.R.Intn(4))
